@@ -432,11 +432,14 @@ func c13SizeSourceOK(c *core.Ctx, g *c13Graph, sf *c13SpecFields, caller *c13Nod
 // state other than half-open (the window then has the closed-state size) or after a strict
 // test `x < size` (x unsigned) / `size > 0` has succeeded on the path.
 func c13CheckAdmission(c *core.Ctx, size *types.Var) (bool, string) {
-	f := fn(c, c13CB, "CircuitBreaker", "AcquirePermission")
+	return c13Memo(c, "admission:"+size.Name(), func() (bool, string) { return c13Admission(c, size) })
+}
+
+func c13Admission(c *core.Ctx, size *types.Var) (bool, string) {
 	pkg := c.Prog.Pkg(c13CB)
 	cbT := namedType(c, c13CB, "CircuitBreaker")
 	stT := namedType(c, c13CB, "State")
-	if f == nil || pkg == nil || cbT == nil || stT == nil {
+	if pkg == nil || cbT == nil || stT == nil {
 		return true, "anchor unresolved (checker error recorded)"
 	}
 	// the state field by role: the field of CircuitBreaker whose type is State
@@ -458,7 +461,94 @@ func c13CheckAdmission(c *core.Ctx, size *types.Var) (bool, string) {
 		return true, "anchor unresolved (checker error recorded)"
 	}
 	halfVal := half.Val().ExactString()
-	// the functions whose bodies may be interpreted in place, each with its own node (locals)
+	// the admission decider by role: the function of the package whose code (with the
+	// same-package functions it calls) reads the state field, changes the breaker and answers with
+	// a boolean (or a struct carrying one), and none of whose callees does so too (the innermost such function: AcquirePermission today, a helper
+	// like acquire() after a split)
+	readsBoth := func(f *flow.Func) bool {
+		st, sz := false, false
+		for _, h := range reach(f, 3) {
+			ast.Inspect(h.Body, func(x ast.Node) bool {
+				if sel, ok := x.(*ast.SelectorExpr); ok {
+					if s := h.Info.Selections[sel]; s != nil {
+						if v, ok := s.Obj().(*types.Var); ok {
+							if v.Origin() == stateF {
+								st = true
+							}
+							if v.Origin() == size {
+								sz = true
+							}
+						}
+					}
+				}
+				return true
+			})
+		}
+		if !st {
+			return false
+		}
+		_ = sz
+		// ... and changes the breaker (counts the admitted call, moves the state): a field of
+		// CircuitBreaker is incremented / assigned in that code. (The comparison with the size
+		// field is the protective construct the check demands — not part of the role.)
+		written := false
+		for _, h := range reach(f, 3) {
+			ast.Inspect(h.Body, func(x ast.Node) bool {
+				var targets []ast.Expr
+				switch e := x.(type) {
+				case *ast.IncDecStmt:
+					targets = []ast.Expr{e.X}
+				case *ast.AssignStmt:
+					targets = e.Lhs
+				}
+				for _, t := range targets {
+					if sel, ok := ast.Unparen(t).(*ast.SelectorExpr); ok {
+						if s := h.Info.Selections[sel]; s != nil {
+							if recv := s.Recv(); recv != nil {
+								if p, ok := recv.(*types.Pointer); ok {
+									recv = p.Elem()
+								}
+								if types.Identical(recv, cbT) {
+									written = true
+								}
+							}
+						}
+					}
+				}
+				return true
+			})
+		}
+		return written
+	}
+	var cands []*flow.Func
+	for _, file := range pkg.Syntax {
+		for _, d := range file.Decls {
+			if fd, ok := d.(*ast.FuncDecl); ok && fd.Body != nil {
+				if f := flow.NewFunc(pkg, fd); readsBoth(f) && c13ReturnsBoolish(f) {
+					cands = append(cands, f)
+				}
+			}
+		}
+	}
+	var deciders []*flow.Func
+	for _, f := range cands {
+		inner := false
+		for _, h := range reach(f, 3)[1:] {
+			for _, o := range cands {
+				if o.Node == h.Node {
+					inner = true
+				}
+			}
+		}
+		if !inner {
+			deciders = append(deciders, f)
+		}
+	}
+	if len(deciders) != 1 {
+		c.Errorf("R-C13-7: anchor: %d functions of %s decide the half-open admission against %s (expected 1)", len(deciders), c13CB, size.Name())
+		return true, "admission decider not identified (checker error recorded)"
+	}
+	f := deciders[0]
 	var nodes []*c13Node
 	for _, h := range reach(f, 4) {
 		if fd, ok := h.Node.(*ast.FuncDecl); ok {
@@ -473,9 +563,7 @@ func c13CheckAdmission(c *core.Ctx, size *types.Var) (bool, string) {
 		}
 		return nodes[0]
 	}
-	// renderings of the state field (the receiver may be renamed in a helper: any rendering)
 	isStateFact := func(fact string) (string, bool) {
-		// "eq:<recv>.<field>==<const>=T"
 		if !strings.HasPrefix(fact, "eq:") || !strings.HasSuffix(fact, "=T") {
 			return "", false
 		}
@@ -496,10 +584,7 @@ func c13CheckAdmission(c *core.Ctx, size *types.Var) (bool, string) {
 	const ev = "ev:size-positive"
 	res := analyze(c, f, flow.Config{
 		Inline: inlineSamePkg(f),
-		Track: func(k string) bool {
-			return strings.Contains(k, "."+stateF.Name()+"==") || strings.HasPrefix(k, "v:") || strings.HasPrefix(k, "call:") || strings.HasPrefix(k, "eq:")
-		},
-		Pure: c13PureFor(f, base),
+		Pure:   c13PureFor(f, base),
 		AfterAssume: func(st *flow.State, cond ast.Expr, outcome bool) {
 			if c13ShowsPositive(nodeAt(cond), cond, outcome, size) {
 				st.Set(ev, flow.True)
@@ -507,24 +592,19 @@ func c13CheckAdmission(c *core.Ctx, size *types.Var) (bool, string) {
 		},
 	})
 	if res == nil {
-		return true, "AcquirePermission could not be analysed (checker error recorded)"
+		return true, "the admission decider could not be analysed (checker error recorded)"
 	}
 	admits := 0
 	for _, ex := range res.Exits {
 		if ex.Kind != flow.ExitReturn || ex.Return == nil || len(ex.Return.Results) == 0 {
 			continue
 		}
-		r0 := ast.Unparen(ex.Return.Results[0])
-		tv := f.Info.Types[r0]
-		if tv.Value != nil && tv.Value.ExactString() == "false" {
+		switch c13Admits(f, ex) {
+		case flow.False:
 			continue
-		}
-		// a boolean variable / inlined call known false on this path does not admit
-		if id, ok := r0.(*ast.Ident); ok && ex.State.Is(f.VarKey(id), flow.False) {
-			continue
-		}
-		if call, ok := r0.(*ast.CallExpr); ok && ex.State.Is(f.CallKey(call), flow.False) {
-			continue
+		case flow.Unknown:
+			c.Errorf("R-C13-7: cannot tell whether the return at %s admits the call", pos(c, ex.Ret()))
+			return true, "admission not recognisable (checker error recorded)"
 		}
 		admits++
 		if ex.State.Is(ev, flow.True) {
@@ -537,14 +617,98 @@ func c13CheckAdmission(c *core.Ctx, size *types.Var) (bool, string) {
 			}
 		}
 		if !other {
-			return false, sprintf("AcquirePermission admits a call at %s on a path where the circuit breaker may be half-open and no strict test has shown %s > 0: the result is pushed into a window of %s buckets — index out of range when it is 0", pos(c, ex.Ret()), size.Name(), size.Name())
+			return false, sprintf("%s admits a call at %s on a path where the circuit breaker may be half-open and no strict test has shown %s > 0: the result is pushed into a window of %s buckets — index out of range when it is 0", f.Name, pos(c, ex.Ret()), size.Name(), size.Name())
 		}
 	}
 	if admits == 0 {
-		c.Errorf("R-C13-7: AcquirePermission has no admitting return (cannot judge)")
+		c.Errorf("R-C13-7: %s has no admitting return (cannot judge)", f.Name)
 		return true, "no admitting return found (checker error recorded)"
 	}
-	return true, sprintf("calls are admitted in half-open state only after a strict test against %s (inlined: %s)", size.Name(), strings.Join(res.Inlined, ", "))
+	return true, sprintf("%s admits calls in half-open state only after a strict test against %s (inlined: %s)", f.Name, size.Name(), strings.Join(res.Inlined, ", "))
+}
+
+// c13ReturnsBoolish: the first result is a bool or a struct with a bool field (a permission).
+func c13ReturnsBoolish(f *flow.Func) bool {
+	fd, ok := f.Node.(*ast.FuncDecl)
+	if !ok || fd.Type.Results == nil || len(fd.Type.Results.List) == 0 {
+		return false
+	}
+	t := f.Info.Types[fd.Type.Results.List[0].Type].Type
+	if t == nil {
+		return false
+	}
+	if b, ok := t.Underlying().(*types.Basic); ok {
+		return b.Info()&types.IsBoolean != 0
+	}
+	if st, ok := t.Underlying().(*types.Struct); ok {
+		for i := 0; i < st.NumFields(); i++ {
+			if b, ok := st.Field(i).Type().Underlying().(*types.Basic); ok && b.Info()&types.IsBoolean != 0 {
+				return true
+			}
+		}
+	}
+	return false
+}
+
+// c13Admits classifies the first returned value of an exit: a boolean constant, a boolean
+// variable / inlined call with a known value, a call handed a single boolean constant
+// (`answer(true)`), a struct literal with a constant boolean field.
+func c13Admits(f *flow.Func, ex *flow.Exit) flow.Val {
+	constBool := func(e ast.Expr) flow.Val {
+		if tv := f.Info.Types[e]; tv.Value != nil {
+			switch tv.Value.ExactString() {
+			case "true":
+				return flow.True
+			case "false":
+				return flow.False
+			}
+		}
+		return flow.Unknown
+	}
+	r0 := ast.Unparen(ex.Return.Results[0])
+	if v := constBool(r0); v != flow.Unknown {
+		return v
+	}
+	switch x := r0.(type) {
+	case *ast.Ident:
+		return ex.State.Get(f.VarKey(x))
+	case *ast.CallExpr:
+		if v := ex.State.Get(f.CallKey(x)); v != flow.Unknown {
+			return v
+		}
+		found := flow.Unknown
+		nb := 0
+		for _, a := range x.Args {
+			if v := constBool(a); v != flow.Unknown {
+				found = v
+				nb++
+			} else if id, ok := ast.Unparen(a).(*ast.Ident); ok {
+				if v := ex.State.Get(f.VarKey(id)); v != flow.Unknown {
+					found = v
+					nb++
+				}
+			}
+		}
+		if nb == 1 {
+			return found
+		}
+	case *ast.CompositeLit:
+		found := flow.Unknown
+		nb := 0
+		for _, el := range x.Elts {
+			if kv, ok := el.(*ast.KeyValueExpr); ok {
+				el = kv.Value
+			}
+			if v := constBool(el); v != flow.Unknown {
+				found = v
+				nb++
+			}
+		}
+		if nb == 1 {
+			return found
+		}
+	}
+	return flow.Unknown
 }
 
 // c13ShowsPositive: the branch outcome implies that the field `size` is > 0.
